@@ -1,7 +1,8 @@
 #!/bin/bash
 # Runs the repository's own test suite with the verif guard OFF (no -tags) and
 # compares the set of passing tests with BASELINE.json's stable_pass list.
-. /verif/bin/env.sh
+VERIF_ROOT=${VERIF_ROOT:-$(cd "$(dirname "$0")/.." && pwd)}; export VERIF_ROOT
+. "$VERIF_ROOT/bin/env.sh"
 out=$(mktemp)
 rc=0
 for m in . ./v2; do
